@@ -236,10 +236,18 @@ Lanes(A, axis) == IF axis = 0 THEN [j \in 1..A.c |-> Col(A, j)] ELSE [i \in 1..A
 (* sample covariance of the columns, (1/(m-1)) sum_k (x_ki - mu_i)(x_kj - mu_j)
    = (m * sum x_i x_j - sum x_i * sum x_j) / (m (m-1));  defined for m >= 2 *)
 CovFrac(A, i, j) ==
+    \* covariance is invariant under a shift of either column: computed on y = x - x[1], which keeps the
+    \* integers small when the columns carry a large common offset
     LET m  == A.r
-        xi == Col(A, i)
-        xj == Col(A, j)
+        ci == Col(A, i)
+        cj == Col(A, j)
+        xi == [k \in 1..m |-> ci[k] - ci[1]]
+        xj == [k \in 1..m |-> cj[k] - cj[1]]
     IN  <<m * SeqSum([k \in 1..m |-> xi[k] * xj[k]]) - SeqSum(xi) * SeqSum(xj), m * (m - 1)>>
+(* accuracy relative to the spread of the columns (like var): the tolerance does not grow with a common offset,
+   except for the rounding of the offset data themselves in single precision *)
+ColSpread(A) == SeqMax([j \in 1..A.c |-> Spread(Col(A, j))]) + 1
+CovTol(ty, A, sp) == TolTy(ty, 4 * sp * sp * A.r) + (IF ty = "f32" THEN (NormInf(A) * sp * A.r) \div 16384 ELSE 0)
 
 (***************************************************************************)
 (* 5. Results the statement does not pin down to one value                 *)
@@ -499,15 +507,15 @@ QR_(en, n, Con(_), Fr(_), Tol(_)) ==
 (* (the lanes and the tolerance are operator PARAMETERS: evaluated once, not once per lane) *)
 MeanLanes(ls, tol) == QR_(TRUE, Len(ls), LAMBDA x : TRUE, LAMBDA x : MeanFrac(ls[x]), LAMBDA x : tol)
 
+CovAll(A, tol) == QR_(TRUE, A.c * A.c, LAMBDA x : TRUE,
+                      LAMBDA x : CovFrac(A, ((x - 1) \div A.c) + 1, ((x - 1) % A.c) + 1), LAMBDA x : tol)
+
 QRat(ty, op, A, B, ia, iv, iw) ==
     CASE op \in {"column_mean", "mean"} ->
             IF NonEmpty(A) THEN MeanLanes(Lanes(A, IF op = "mean" THEN ia[1] ELSE 0), TolTy(ty, NormInf(A))) ELSE QRNone
       [] op = "v_mean" -> QR_(A.c >= 1, 1, LAMBDA x : TRUE, LAMBDA x : MeanFrac(A.d), LAMBDA x : TolTy(ty, NormInf(A)))
       [] op = "cov" ->
-            LET mg == NormInf(A) IN
-            QR_(A.r >= 2, A.c * A.c, LAMBDA x : TRUE,
-                LAMBDA x : CovFrac(A, ((x - 1) \div A.c) + 1, ((x - 1) % A.c) + 1),
-                LAMBDA x : TolTy(ty, 4 * mg * mg * A.r))
+            IF A.r >= 2 THEN CovAll(A, CovTol(ty, A, ColSpread(A))) ELSE QRNone
       [] op \in {"div", "div_mut", "v_div", "v_div_mut"} ->
             IF ~EnAdd(A, B) THEN QRNone
             ELSE QR_(TRUE, Len(A.d), LAMBDA x : B.d[x] # 0, LAMBDA x : Frac(A.d[x], B.d[x]),
